@@ -23,6 +23,7 @@ def molecule(name):
            "H4": ([("H", (0, 0, 0)), ("H", (0, 0, 1.0)), ("H", (0, 0, 2.1)), ("H", (0, 0, 3.3))], 0, 0, False),
            "H4+": ([("H", (0, 0, 0)), ("H", (0, 0, 1.0)), ("H", (0, 0, 2.1)), ("H", (0, 0, 3.3))], 1, 1, False),
            "H4+u": ([("H", (0, 0, 0)), ("H", (0, 0, 1.0)), ("H", (0, 0, 2.1)), ("H", (0, 0, 3.3))], 1, 1, True),
+           "H4t": ([("H", (0, 0, 0)), ("H", (0, 0, 1.0)), ("H", (0, 0, 2.1)), ("H", (0, 0, 3.3))], 0, 2, False),
            "H2u": ([("H", (0, 0, 0)), ("H", (0, 0, 0.7414))], 0, 0, True)}[name]
     m = SecondQuantizedMolecule(geo[0], q=geo[1], spin=geo[2], basis="sto-3g", uhf=geo[3])
     _MOLS[name] = m
